@@ -26,6 +26,16 @@ pub fn definitional(leaves: &[[u8; 32]]) -> [u8; 32] {
 }
 
 pub fn eval(case: &str) -> Out {
+    let w: Vec<&str> = case.split(' ').collect();
+    if w.len() == 4 && w[1] == "rep" {
+        let (Some(n), Some(t)) = (w[2].parse::<usize>().ok(), unhex(w[3])) else { return Out::ok("harnesserr rep".into()) };
+        if t.len() != 28 { return Out::ok("harnesserr tail".into()); }
+        let leaves: Vec<[u8; 32]> = (0..n).map(|i| { let mut l = [0u8; 32]; l[..4].copy_from_slice(&(i as u32).to_le_bytes()); l[4..].copy_from_slice(&t); l }).collect();
+        return match std::panic::catch_unwind(|| elements::fast_merkle_root(&leaves).to_parts().0) {
+            Ok(root) => Out { result: hex(&root), pred_fail: if root != definitional(&leaves) { Some("root-not-definitional|fast_merkle_root differs from the definitional tree evaluated with the same compression".to_string()) } else { None } },
+            Err(_) => Out { result: "panic".into(), pred_fail: Some(format!("root-panics|fast_merkle_root panics on {} leaves", n)) },
+        };
+    }
     let mut it = case.split(' ');
     it.next();
     let leaves: Vec<[u8; 32]> = match it.next().and_then(unhexlist) {
@@ -52,6 +62,11 @@ pub fn gen(rng: &mut ChaCha20Rng, n: usize, thorough: bool) -> Vec<Case> {
         Case { text: format!("C18 {}", hexlist(&leaves)), tags: vec![format!("count{}", bucket(count)), format!("style{}", style)], nontrivial: count >= 2 }
     };
     for count in 0..=n { let style = if count % 7 == 3 { 1 } else if count % 11 == 5 { 2 } else { 0 }; out.push(mk(rng, count, style)); }
+    // large counts around the next powers of two, in the compact form (leaf i = LE32(i) || 28 fixed bytes)
+    let big: &[usize] = if thorough { &[4095, 4096, 4097, 65535, 65536, 65537, 131071, 131072, 131073, 200001] } else { &[4096, 65535, 65536, 65537] };
+    for &c in big {
+        out.push(Case { text: format!("C18 rep {} {}", c, hex(&rbytes(rng, 28))), tags: vec![format!("count{}", bucket(c)), "style-rep".to_string(), format!("big{}", c)], nontrivial: true });
+    }
     let extra = if thorough { 12 } else { 4 };
     for _ in 0..extra {
         let count = rng.gen_range(n + 1..n * 4 + 2);
